@@ -22,7 +22,7 @@ import os
 import re
 import sys
 
-from sim import kernel, observe
+from sim import corpus, kernel, observe, values
 from sim import shrink as shr
 from sim.streams import SimReader, SimWriter
 
@@ -269,7 +269,21 @@ def canon(api, it):
 
 
 def doc_text(op):
-    return ''.join(DOCS[d] + ('...\n' if op.get('terminate') else '') for d in op['docs'])
+    # 'text:<literal>' = a corpus file or a seeded synthetic text carried by the operation itself (the named pool is small
+    # and fixed; any deterministic text can be an operation because references are computed per operation)
+    return ''.join((DOCS[d] if d in DOCS else d[5:]) + ('...\n' if op.get('terminate') else '') for d in op['docs'])
+
+
+def pool_value(ctx, v):
+    """A named pool value, or a value built afresh from a seeded recipe carried by the operation."""
+    if isinstance(v, list):
+        return values.build(v)
+    return ctx['values'][v]
+
+
+def seeded_text(r):
+    label, text = corpus.pick_text(r, p_corpus=0.5)
+    return 'text:' + text[:3000]
 
 
 def bad_events(yaml, kind):
@@ -367,7 +381,8 @@ def run_op(yaml, op, ctx):
         vals = ctx['values']
         try:
             if api in ('dump', 'dump_all'):
-                payload = [evolving_state(int(v[7:])) if v.startswith('evolve@') else vals[v] for v in op.get('vals', [])]
+                payload = [pool_value(ctx, v) if isinstance(v, list) else evolving_state(int(v[7:])) if v.startswith('evolve@') else vals[v]
+                           for v in op.get('vals', [])]
                 if op.get('evolve'):
                     payload = EvolvingDocuments(op['evolve'])
                 hook = ctx.get('between_hook') if not op.get('evolve') else None
@@ -481,7 +496,7 @@ def run_wrapper(yaml, op, ctx):
                     obs['items'].append(canon('load', it))
         else:
             opts = dict(OPTS[op.get('opts', 'none')])
-            payload = [ctx['values'][v] for v in op['vals']]
+            payload = [pool_value(ctx, v) for v in op['vals']]
             res = yaml.safe_dump(payload[0], **opts) if base == 'dump' else yaml.safe_dump_all(payload, **opts)
             obs['returned'] = res if not isinstance(res, bytes) else {'bytes': res.hex()}
     except kernel.Hang:
@@ -552,6 +567,8 @@ def gen_load_op(r, reent_ok=True):
         docs = ['bigmb'] + docs
         pass
     op = {'api': api, 'cls': cls, 'docs': docs, 'terminate': multi or len(docs) > 1, 'form': r.choice(['str', 'str', 'bytes', 'bstream', 'tstream'])}
+    if r.random() < 0.25:
+        op.update(docs=[seeded_text(r)], terminate=False)
     if op['form'].endswith('stream'):
         op['chunk'] = r.choice([1, 3, 7, 64, None])
         if r.random() < 0.3:
@@ -582,6 +599,10 @@ def gen_dump_op(r, reent_ok=True):
         if op['opts'] == 'unsorted':
             # the iteration order of a set depends on the hash seed: not a deterministic observation
             op['vals'] = ['plain' if v == 'set' else v for v in op['vals']]
+        if r.random() < 0.25:
+            # values built from a seeded recipe (shared / recursive containers, every scalar type)
+            op['vals'] = [values.hash_order_free(values.Gen(r, safe=True, depth=r.choice([1, 2, 3]), width=r.choice([2, 3, 4])).value(0),
+                                                 op['opts'] != 'unsorted') for _ in op['vals']]
         if reent_ok and api == 'dump_all' and n > 1 and r.random() < 0.3:
             op['between'] = gen_op(r, reent_ok=False)
     elif api.startswith('serialize'):
@@ -636,6 +657,9 @@ def gen_gen_op(r):
         # multi-byte text through a binary stream in pieces that split sequences
         return {'api': api, 'cls': r.choice(LOADERS), 'docs': [r.choice(['cyrillic', 'cjk', 'unicode']) for _ in range(r.randint(2, 4))],
                 'terminate': True, 'form': 'bstream', 'chunk': r.choice([2, 3, 5, 7, 16])}
+    if r.random() < 0.2:
+        return {'api': api, 'cls': r.choice(LOADERS), 'docs': [seeded_text(r)], 'terminate': False, 'form': r.choice(['bstream', 'tstream']),
+                'chunk': r.choice([1, 2, 5, 16, 64, None])}
     return {'api': api, 'cls': r.choice(LOADERS), 'docs': docs, 'terminate': True, 'form': r.choice(['bstream', 'tstream']),
             'chunk': r.choice([1, 2, 5, 16, 64, None])}
 
